@@ -381,3 +381,5 @@ func onlyGuards(o *an.Obl, f *an.Func, site an.Site, allowed []string, what stri
 		}
 	}
 }
+
+func sortStrings(s []string) { sort.Strings(s) }
